@@ -625,8 +625,8 @@ func (c *Compiler) structCode(typ *runtime.Type, isPtr bool) (*StructCode, error
 		}
 		fields = append(fields, field)
 	}
-	fieldMap := c.getFieldMap(fields)
-	duplicatedFieldMap := c.getDuplicatedFieldMap(fieldMap)
+	fieldMap, depths := c.getFieldMap(fields)
+	duplicatedFieldMap := c.getDuplicatedFieldMap(fieldMap, depths)
 	code.fields = c.filteredDuplicatedFields(fields, duplicatedFieldMap)
 	if !code.disableIndirectConversion && !indirect && isPtr {
 		code.enableIndirect()
@@ -725,66 +725,64 @@ func (c *Compiler) isAssignableIndirect(fieldCode *StructFieldCode, isPtr bool) 
 	return true
 }
 
-func (c *Compiler) getFieldMap(fields []*StructFieldCode) map[string][]*StructFieldCode {
+// getFieldMap collects, per key, the fields of the struct and those promoted
+// from embedded structs, with their embedding depth.
+func (c *Compiler) getFieldMap(fields []*StructFieldCode) (map[string][]*StructFieldCode, map[*StructFieldCode]int) {
 	fieldMap := map[string][]*StructFieldCode{}
+	depths := map[*StructFieldCode]int{}
+	c.collectFields(fields, 0, fieldMap, depths)
+	return fieldMap, depths
+}
+
+func (c *Compiler) collectFields(fields []*StructFieldCode, depth int, fieldMap map[string][]*StructFieldCode, depths map[*StructFieldCode]int) {
 	for _, field := range fields {
 		if field.isAnonymous {
-			for k, v := range c.getAnonymousFieldMap(field) {
-				fieldMap[k] = append(fieldMap[k], v...)
+			structCode := field.getAnonymousStruct()
+			if structCode != nil && !structCode.isRecursive {
+				c.collectFields(structCode.fields, depth+1, fieldMap, depths)
+				continue
 			}
-			continue
 		}
 		fieldMap[field.key] = append(fieldMap[field.key], field)
+		depths[field] = depth
 	}
-	return fieldMap
 }
 
-func (c *Compiler) getAnonymousFieldMap(field *StructFieldCode) map[string][]*StructFieldCode {
-	fieldMap := map[string][]*StructFieldCode{}
-	structCode := field.getAnonymousStruct()
-	if structCode == nil || structCode.isRecursive {
-		fieldMap[field.key] = append(fieldMap[field.key], field)
-		return fieldMap
-	}
-	for k, v := range c.getFieldMapFromAnonymousParent(structCode.fields) {
-		fieldMap[k] = append(fieldMap[k], v...)
-	}
-	return fieldMap
-}
-
-func (c *Compiler) getFieldMapFromAnonymousParent(fields []*StructFieldCode) map[string][]*StructFieldCode {
-	fieldMap := map[string][]*StructFieldCode{}
-	for _, field := range fields {
-		if field.isAnonymous {
-			for k, v := range c.getAnonymousFieldMap(field) {
-				// Do not handle tagged key when embedding more than once
-				for _, vv := range v {
-					vv.isTaggedKey = false
-				}
-				fieldMap[k] = append(fieldMap[k], v...)
-			}
-			continue
-		}
-		fieldMap[field.key] = append(fieldMap[field.key], field)
-	}
-	return fieldMap
-}
-
-func (c *Compiler) getDuplicatedFieldMap(fieldMap map[string][]*StructFieldCode) map[*StructFieldCode]struct{} {
+// getDuplicatedFieldMap applies Go's rules for fields of the same key: the
+// field at the shallowest embedding depth wins; among several at that depth
+// the only tagged one wins; all others are dropped.
+func (c *Compiler) getDuplicatedFieldMap(fieldMap map[string][]*StructFieldCode, depths map[*StructFieldCode]int) map[*StructFieldCode]struct{} {
 	duplicatedFieldMap := map[*StructFieldCode]struct{}{}
 	for _, fields := range fieldMap {
 		if len(fields) == 1 {
 			continue
 		}
-		if c.isTaggedKeyOnly(fields) {
-			for _, field := range fields {
+		minDepth := depths[fields[0]]
+		for _, field := range fields {
+			if depths[field] < minDepth {
+				minDepth = depths[field]
+			}
+		}
+		shallowest := make([]*StructFieldCode, 0, len(fields))
+		for _, field := range fields {
+			if depths[field] == minDepth {
+				shallowest = append(shallowest, field)
+			} else {
+				duplicatedFieldMap[field] = struct{}{}
+			}
+		}
+		if len(shallowest) == 1 {
+			continue
+		}
+		if c.isTaggedKeyOnly(shallowest) {
+			for _, field := range shallowest {
 				if field.isTaggedKey {
 					continue
 				}
 				duplicatedFieldMap[field] = struct{}{}
 			}
 		} else {
-			for _, field := range fields {
+			for _, field := range shallowest {
 				duplicatedFieldMap[field] = struct{}{}
 			}
 		}
